@@ -291,14 +291,19 @@ EXCEPT_BOUNDS = {
 
 def check_marker_bounds(out, facts):
     cfg = facts.cfg
+    def nolt(x):
+        return re.sub(r"'\w+", "'_", x)     # impl headers name their lifetimes independently
     dec_impls = {}
     for i in facts.impls_of('Decode'):
-        dec_impls[i['self']] = i
-    wrapped = {i['self']: i for i in facts.impls_of('WrapperTypeDecode')}
+        dec_impls[nolt(i['self'])] = i
+    wrapped = {nolt(i['self']): i for i in facts.impls_of('WrapperTypeDecode')}
     n = 0
+    unmatched = []
     for m in facts.impls_of('DecodeWithMemTracking'):
         n += 1
-        s = m['self']
+        s = nolt(m['self'])
+        if s not in dec_impls and s not in wrapped:
+            unmatched.append(m['self'])
         key = 'impl DecodeWithMemTracking for %s [%s]' % (s, cfg)
         have = {(tp['self'], tname(tp['trait'])) for tp in m['tpreds']}
         need = []
@@ -310,9 +315,12 @@ def check_marker_bounds(out, facts):
             for it in wrapped[s]['items']:
                 if it['name'] == 'Wrapped':
                     need.append(it['value'])
+        elif s.startswith('('):
+            # tuples (generated with their own parameter names): every element is decoded
+            need = [g['name'] for g in m.get('generics', []) if g.get('kind') == 'type']
         else:
-            # generic tuple impls etc: the marker's own self must at least be Decode (supertrait)
-            pass
+            out.fail('R12.3', key + '/decoder', 'no Decode or WrapperTypeDecode impl with this self type was found: the children its decoder decodes are unknown', m['loc'])
+            continue
         missing = []
         for x in need:
             if (x, 'DecodeWithMemTracking') in have:
@@ -321,7 +329,7 @@ def check_marker_bounds(out, facts):
             mm = re.match(r'^<(\w+) as [^>]+>::\w+$', x)
             if mm and (mm.group(1), 'DecodeWithMemTracking') in have:
                 continue
-            if (s, x) in EXCEPT_BOUNDS:
+            if (m['self'], x) in EXCEPT_BOUNDS:
                 continue
             missing.append(x)
         out.ob('R12.3', key, not missing,
